@@ -36,6 +36,7 @@ type Engine struct {
 	TrustedUse map[string]bool
 	Intrinsics map[string]bool
 	Abstract   map[string]bool
+	AutoInlined map[string]bool // contract-less loop-free helpers of the module that were executed in place
 	Notes      []string
 	initStates map[*ssa.Package]*State
 	initRefs   uint64
@@ -83,7 +84,7 @@ func Load(repoDir string, patterns []string, overlay map[string][]byte) (*Engine
 	prog, _ := ssautil.AllPackages(pkgs, ssa.GlobalDebug|ssa.BareInits)
 	prog.Build()
 	e := &Engine{RepoDir: repoDir, prog: prog, pkgs: pkgs, byPath: map[string]*packages.Package{}, cs: NewContractSet(),
-		tags: map[string]int{}, MaxPaths: 20000, TrustedUse: map[string]bool{}, Intrinsics: map[string]bool{}, Abstract: map[string]bool{},
+		tags: map[string]int{}, MaxPaths: 20000, TrustedUse: map[string]bool{}, Intrinsics: map[string]bool{}, Abstract: map[string]bool{}, AutoInlined: map[string]bool{},
 		initStates: map[*ssa.Package]*State{}, funcByKey: map[string]*ssa.Function{}, FuncStats: map[string]*FuncStat{}}
 	packages.Visit(pkgs, nil, func(p *packages.Package) { e.byPath[p.PkgPath] = p })
 	for fn := range ssautil.AllFunctions(prog) {
